@@ -102,7 +102,7 @@ def _init():
 def run():
     chk = Check("C06", "model_checking")
     t = tier()
-    n = 150 if t == "quick" else 3000
+    n = 800 if t == "quick" else 5000
     # the acceptor on its own (TLC): total, comma-insensitive, balanced
     cfg = ("SPECIFICATION MCSpec\nCONSTANTS Alphabet = {91,93,123,125,44,58,49,34,97,45,62,32} MaxLen = %d\n"
            "INVARIANT Incremental\nINVARIANT CommaInsensitive\nINVARIANT Balanced\nCHECK_DEADLOCK FALSE\n" % (5 if t == "quick" else 6))
@@ -113,7 +113,28 @@ def run():
     jobs = []
     for i in range(n):
         c = r.random()
-        if c < 0.45:
+        if c < 0.22:
+            # key renames (same and different length) next to dissimilar added / removed pairs: the matcher fixes a
+            # pairing while the key's own edit is barely refined
+            def word(n):
+                return "".join(r.choice("abxyz") for _ in range(n))
+            a = {word(r.randint(2, 5)): r.choice((1, "v", [1], {"q": 1})) for _ in range(r.randint(1, 3))}
+            b = {}
+            for k, v in a.items():
+                k2 = k
+                if r.random() < 0.6:
+                    i = r.randrange(len(k))
+                    k2 = k[:i] + r.choice("abxyz") + k[i + 1:] if r.random() < 0.7 else k + r.choice("abxyz")
+                b[k2] = v if r.random() < 0.7 else r.choice((2, "w", [2]))
+            if r.random() < 0.7:
+                b[word(4) + "zz"] = r.choice((123456, "longer value", [1, 2, 3]))
+            if r.random() < 0.3 and len(a) > 1:
+                b.pop(next(iter(b)))
+            if r.random() < 0.3:
+                a, b = b, a
+            if r.random() < 0.3:
+                a, b = [a, 1], [b, 1]
+        elif c < 0.45:
             a = docs.random_doc(r, depth=r.choice((1, 2, 3)))
             b = docs.mutate(a, r)
         elif c < 0.85:
